@@ -188,6 +188,31 @@ theorem C02_call_return_partial {seq : List Nat} {base mj : Nat} {e : Enc} {s : 
     ∃ s', Reach seq base mj s s' ∧ Frame s s' ∧ Good (afterPAT e arg) s' (T.reverse ++ O) :=
   ⟨encEv_pat 0 0 e arg, pat_good g arg hp ht hsub⟩
 
+/-! ### Outside the domain: two break markers in one loop (defect found while proving)
+
+`Codec.Node` allows at most one break per loop.  That restriction is necessary: `convert_track` keeps
+ONE break address per open loop, so of several `LPB` events in the same loop only the LAST is
+back-patched, while the player (`Basic_Player::step_event`, Spec/Expand) leaves the loop at the
+FIRST break on the last pass.  Moreover every dropped `LPB` still overwrites `last_type`, which
+switches the length disambiguation off exactly as in D4. -/
+
+/-- `[c / d / e]2`: the bytes play `c d e c d` (the player plays `c d e c`) -/
+def exDouble : List MEv :=
+  [⟨mds_LP, 0⟩, ⟨0xa6, 2⟩, ⟨mds_LPB, 0⟩, ⟨0xa8, 2⟩, ⟨mds_LPB, 0⟩, ⟨0xaa, 2⟩, ⟨mds_LPF, 2⟩, ⟨mds_FINISH, 0⟩]
+
+/-- `[c c / r4 / e]2`: the rest length `03` lands behind the length-less second `c` and is decoded as
+its length; the rest is lost on every pass -/
+def exDoubleAdj : List MEv :=
+  [⟨mds_LP, 0⟩, ⟨0xa6, 2⟩, ⟨0xa6, 2⟩, ⟨mds_LPB, 0⟩, ⟨mds_REST, 4⟩, ⟨mds_LPB, 0⟩, ⟨0xaa, 2⟩, ⟨mds_LPF, 2⟩, ⟨mds_FINISH, 0⟩]
+
+theorem C02_double_break_counterexample :
+    (convertTrack 0 0 exDouble).toOption = some [0xfa, 0xa6, 0x01, 0xa8, 0xfc, 0x03, 0xaa, 0xfb, 2, 0xff] ∧
+    run [0xfa, 0xa6, 0x01, 0xa8, 0xfc, 0x03, 0xaa, 0xfb, 2, 0xff] 0 0 100 100 { pc := 0 } =
+      ([.on 36, .hold, .on 38, .hold, .on 40, .hold, .on 36, .hold, .on 38, .hold], .finished) ∧
+    (convertTrack 0 0 exDoubleAdj).toOption =
+      some [0xfa, 0xa6, 0x01, 0xa6, 0x03, 0xfc, 0x03, 0xaa, 0xfb, 2, 0xff] := by
+  decide +kernel
+
 /-! ### non-vacuity -/
 
 /-- the D4 shape `note, note (same length), SEGNO, rest, note, JUMP` -/
